@@ -690,6 +690,21 @@ class World:
             memo = None if so._computed_members is None else sorted(so._computed_members)
             tbl = coq_list([f"({coq_str(k)}, {coq_uc(ucd(u.UnitsContainer(v)))})" for k, v in sorted(so.base_units.items())])
             self.terms.append(f"PSysState {coq_str(s)} {tbl} {c_strs(sorted(so._used_groups))} {coq_opt(None if memo is None else c_strs(memo))}")
+        elif kind == "def_ctx":
+            # oracle-only steps (no model term): a context with a unit redefinition, which makes pint
+            # switch to a per-context cache object while it is active
+            import pint
+            c = pint.Context(op[1])
+            c.redefine(op[2])
+            u.add_context(c)
+            self.terms.append("(* context defined *)")
+            self.oracle_only = True
+        elif kind == "enter_ctx":
+            r = self.call(u.enable_contexts, op[1])
+            self.terms.append("(* context enabled *)")
+        elif kind == "exit_ctx":
+            r = self.call(u.disable_contexts)
+            self.terms.append("(* context disabled *)")
         else:
             raise ValueError(kind)
 
@@ -1164,6 +1179,26 @@ def run(ck):
         random_ops(rng, w, dinfo, 30 if thorough else 16, allow_selfloop=(k % 3 == 0))
         add(w, ("seq-default", k))
 
+    # ---- (vi-b) default_system assigned while a redefining context is active (oracles only: the
+    #      context machinery is C12's model; here only "takes effect immediately" is decided)
+    probe_units = ["meter", "pound", "gallon", "newton", "inch", "yard", "stone", "acre"]
+    sysn = [x for x in SYSTEMS if x]
+    for k in range(len(sysn) if thorough else 3):
+        s1, s2 = (sysn[k], sysn[(k + 2) % len(sysn)]) if thorough else rng.sample(sysn, 2)
+        w = World(registry(), fails, f"ctx-default:{s1}->{s2}")
+        w.setup_names()
+        w.apply(["def_ctx", "c14redef", "fortnight = 15 * day"])
+        w.apply(["set_default", s1])
+        for n in probe_units:
+            w.apply(["base", jd({n: F(1)}), True, None])
+        w.apply(["enter_ctx", "c14redef"])
+        w.apply(["set_default", s2])
+        w.apply(["exit_ctx"])
+        for n in probe_units:
+            w.apply(["base", jd({n: F(1)}), True, None])
+            w.apply(["to_base", "3", jd({n: F(1)})])
+        ck.case(key=("ctx-default", s1, s2), n=len(w.log))
+        ck.count("oracle-only:ctx-default", len(w.log))
     phase("sequences default")
     # ---- (vii) generated definition files
     ngen = 300 if thorough else 30
